@@ -320,10 +320,10 @@ func (self *linkedPairs) Get(key string) (*Pair, int) {
 		i, ok := self.index[caching.StrHash(key)]
 		if ok {
 			n := self.At(i)
-			if n.Key == key {
+			if n.Key == key && (key != "" || n.Value.Exists()) {
 				return n, i
 			}
-			// hash conflicts
+			// hash conflicts, or the indexed pair was softly removed
 			goto linear_search
 		} else {
 			return nil, -1
